@@ -84,6 +84,33 @@ theorem tunnelled_only_over_ready_exit_circuit (s : State) (ops : List Op) :
   | notify b => simp [step, notify] at hmem
   | _ => simp [step] at hmem <;> (split at hmem <;> simp at hmem)
 
+/-- **A circuit that is being torn down is ineligible at once.**  From the moment `remove_circuit(cid)` has been
+    requested (destroy sent, `Circuit.close()` — this is also what `on_destroy` and `do_remove` trigger), through
+    every later interleaving of sends, anonymity toggles, attach/detach, other circuits appearing / extending /
+    closing, the delayed `circuits.pop(cid)` arriving or not, further removal requests … no `send_data` ever names
+    circuit `cid` again: packets are queued (or use another READY circuit) instead.  (`cid < nextId`: the id has been
+    handed out, so no later circuit is registered under it.) -/
+theorem no_send_data_after_remove_request (s : State) (cid : Nat) (h : cid < s.comm.nextId) (ops : List Op) :
+    ∀ x ∈ trace (step s (.removeRequest cid)).1 ops, ∀ tgt d p, Event.data cid tgt d p ∉ x.2.2 := by
+  intro x hx tgt d p hmem
+  obtain ⟨_, _, c, hc, hcid, _, hncl, _⟩ :=
+    tunnelled_only_over_ready_exit_circuit _ ops x hx cid tgt d p hmem
+  obtain ⟨pre, _, _, hst, _⟩ := trace_mem ops _ x hx
+  have hinv := closedFor_runState cid pre _ (closedFor_request cid s h)
+  rw [← hst] at hinv
+  have := hinv.1 c hc hcid
+  rw [hncl] at this; cases this
+
+/-- **No `send_data` over a CLOSING circuit, for any interleaving.**  Whatever the history, the circuit a `send_data`
+    names is, in the state in which that call happens, registered under that id with `_closing = False`; the moment
+    the closing event (`Circuit.close()`, however it was reached) has happened, the next `send` already sees it. -/
+theorem no_send_data_over_closing_circuit (s : State) (ops : List Op) :
+    ∀ x ∈ trace s ops, ∀ cid tgt d p, Event.data cid tgt d p ∈ x.2.2 →
+      ∃ c ∈ x.1.comm.circuits, c.cid = cid ∧ c.closing = false ∧ c.state ≠ .closing := by
+  intro x hx cid tgt d p hmem
+  obtain ⟨_, _, c, hc, hcid, hr, hncl, _⟩ := tunnelled_only_over_ready_exit_circuit s ops x hx cid tgt d p hmem
+  exact ⟨c, hc, hcid, hncl, by rw [hr]; simp⟩
+
 /-- **Tunnelled, queued or dropped — nothing else.**  A `send` of an anonymized packet has exactly one of three
     outcomes, each with its exact effect:
     * a tunnel community is attached and the first circuit `find_circuits` returns is READY: the packet and then the
@@ -311,6 +338,13 @@ example : step stReady (.send 3 (pktA 2)) =
 example : (runState stReady [.close 0, .send 3 (pktA 2), .send 3 (pktA 3)]).queue = [(3, pktA 2), (3, pktA 3)]
     ∧ (trace stReady [.close 0, .send 3 (pktA 2), .send 3 (pktA 3)]).map (·.2.2)
         = [[], [], [.drop true 5 (pktA 1)]] := by decide
+/-- removal requested for the READY circuit 9 (`remove_circuit` before its delay has elapsed): the very next send is
+    queued although the entry is still registered (and, a quirk of `circuits[0]`, it keeps later READY circuits from
+    being used until it is popped); after the pop the backlog goes over the new READY circuit -/
+example : (trace stReady [.removeRequest 9, .send 3 (pktA 2), .newCircuit 1 .data,
+      .addHop 1 { addr := 8, flags := [4] }, .removeDone 9, .send 3 (pktA 3)]).map (·.2.2)
+    = [[], [], [], [], [], [.data 10 (some 8) 3 (pktA 3), .data 10 (some 8) 5 (pktA 1), .data 10 (some 8) 3 (pktA 2)]]
+    ∧ (runState stReady [.removeRequest 9, .send 3 (pktA 2)]).comm.circuits.length = 1 := by decide
 /-- detached: dropped, never raw -/
 example : step { stReady with attached := false } (.send 3 (pktA 2)) =
     ({ stReady with attached := false }, [.drop false 3 (pktA 2)]) := by decide
